@@ -1301,6 +1301,14 @@ def main(repo: str, outdir: str, dry: bool = False) -> int:
             raise TranslateError(str(e))
         return HEADER + "namespace Optyx.Generated\n\n" + body + "\nend Optyx.Generated\n"
 
+    def f_problemedit():
+        import py2lean_state
+        try:
+            body = py2lean_state.gen_problem_edit(src("problem.py"))
+        except py2lean_state.TranslateError as e:
+            raise TranslateError(str(e))
+        return HEADER + "namespace Optyx.Generated\n\n" + body + "\nend Optyx.Generated\n"
+
     import source_pins
 
     def f_pins(prop):
@@ -1317,7 +1325,7 @@ def main(repo: str, outdir: str, dry: bool = False) -> int:
                         ("JacRow", f_jacrow), ("InitPoint", f_init), ("Dispatch", f_dispatch),
                         ("ApiGlue", f_apiglue), ("LPGlue", f_lpglue), ("SortGlue", f_sort),
                         ("DegreeStep", f_degstep), ("GradStep", f_gradstep), ("LPStep", f_lpstep), ("JacRowVec", f_jacrowvec),
-                        ("ScipyPost", f_scipypost)):
+                        ("ScipyPost", f_scipypost), ("ProblemEdit", f_problemedit)):
         path = os.path.join(outdir, fname + ".lean")
         try:
             text = make()
